@@ -7,6 +7,8 @@
     DAG vs oracle on the returned ADMG) and single-cause/single-effect ID verdicts are unchanged.
 (c) evans_simplify(G, latents=L) for every ADMG G and node subset L equals the latent projection of the
     latent-expanded DAG with L additionally latent.
+(b') operation sequences on live LV-DAG objects (n <= 4): simplify, retag one observed node as latent on the same
+    object or on a copy, simplify again; the second result is compared with the projection of what the call was given.
 (d) the consumer of the pipeline (taheri_design_dag / taheri_design_admg, asked for every latent configuration):
     each Result's mixed graph equals the latent projection for its latent set, its lists of latent and observed
     nodes partition the inducible nodes, and its identifiability flag equals the oracle verdict on the projection.
@@ -97,6 +99,7 @@ def describe(tier):
             if tier == "thorough"
             else " + all 1024 name-ordered five-node DAGs x every proper non-empty latent subset"
         )
+        + "; (b') sequences simplify / hide one observed node (same object or copy) / simplify on every tagged DAG up to 4 nodes"
         + "; (c) evans_simplify with every additional latent subset on L(2), L(3), "
         + ("O(4)" if tier == "thorough" else "O(4, <=4 edges)")
         + "; all observed pairs and conditioning sets; all single-cause/single-effect queries"
@@ -245,8 +248,60 @@ def check_simplify(res: Res, names, di, lat):
         return
     ok = _compare_with_projection(res, case, admg, names, di, set(lat), "projection") and ok
     res.outcomes["simplify_ok" if ok else "simplify_wrong"] += 1
+    if len(names) <= 4:
+        ok2 = _retag_sequences(res, case, g1, d)
+        res.outcomes["sequence_ok" if ok2 else "sequence_wrong"] += 1
     if len(res.samples) < 2 and len(lat) == 2 and len(di) >= 3:
         res.sample(case)
+
+
+def _read_dag(d):
+    """(names, di, latent) of a live LV-DAG, as it is now."""
+    names = tuple(sorted(str(n) for n in d.nodes()))
+    di = tuple(sorted((str(a), str(b)) for a, b in d.edges()))
+    lat = {str(n) for n, dat in d.nodes(data=True) if dat.get("hidden")}
+    return names, di, lat
+
+
+def _retag_sequences(res, case, g1, d0):
+    """Operation sequences on live LV-DAG objects: simplify, change one tag in place (an observed node becomes latent) on
+    the simplified object itself or on a copy of it, simplify again.  The second call is judged like any other: against
+    the latent projection of the DAG it was given.  (State carried from the first call -- graph attributes, copies that
+    inherit them -- is only reachable this way.)"""
+    from y0.algorithm.simplify_latent import simplify_latent_dag
+    from y0.graph import NxMixedGraph
+
+    ok = True
+    observed = [n for n, dat in g1.nodes(data=True) if not dat.get("hidden")]
+    for node in observed:
+        for how in ("same_object", "copy"):
+            res.transitions += 1
+            d = simplify_latent_dag(d0.copy()).graph  # a fresh first pass (g1 itself stays as the caller saw it)
+            if how == "copy":
+                d = d.copy()
+            d.nodes[node]["hidden"] = True
+            names, di, lat = _read_dag(d)
+            c2 = dict(case, sequence=["simplify", how, f"hide {node}", "simplify"])
+            try:
+                g2 = simplify_latent_dag(d).graph
+                admg = NxMixedGraph.from_latent_variable_dag(g2)
+            except Exception as e:  # noqa
+                res.violation("simplify_exception", c2, f"second simplification raised {type(e).__name__}: {e}")
+                ok = False
+                continue
+            want = latent_projection(names, di, lat)
+            got = from_y0(admg)
+            want_bi = {tuple(sorted(e)) for e in want.bi}
+            if set(got.nodes) != set(names) - lat or set(got.di) != set(want.di) or set(got.bi) != want_bi:
+                res.violation(
+                    "projection",
+                    c2,
+                    f"after {c2['sequence']}: mixed graph read off has nodes {sorted(got.nodes)}, directed {list(got.di)}, bidirected "
+                    f"{list(got.bi)}; latent projection of the DAG handed to the second call has nodes {sorted(set(names) - lat)}, "
+                    f"directed {sorted(want.di)}, bidirected {sorted(want_bi)}",
+                )
+                ok = False
+    return ok
 
 
 def check_evans(res: Res, g: G):
